@@ -9,11 +9,14 @@
 (*                   constructor, one call (the full alphabet)                *)
 (*   MC_C16_hist   : a few root shapes, reduced alphabet, deeper histories    *)
 (*                   (exhaustive to Depth, or -simulate)                      *)
+(*   MC_C16_mixed  : mixed-unit lists: every unit pattern x call form         *)
+(* The root comes in the memory layouts `Layouts` (C, Fortran, column of a    *)
+(* wider base, reversed) wherever that differs from C order.                  *)
 EXTENDS Shape
-CONSTANTS Slice, NSlices, Ext, Ext3, MaxRank, RootSmall, IntSet, SliceSet, FancySet, MaskSet, IdxForms, MaxNonAll, MaxNonAll3, TargetRank, Lite, LiteOthers, RedSet, Depth, Ctors, RichCtors
+CONSTANTS Slice, NSlices, Ext, Ext3, MaxRank, RootSet, Layouts, LayCtors, MixRich, MixQuick, IntSet, SliceSet, FancySet, MaskSet, IdxForms, MaxNonAll, MaxNonAll3, TargetRank, Lite, LiteOthers, RedSet, Depth, Ctors, RichCtors
 
-VARIABLES objs, mems, nb, hist
-vars == <<objs, mems, nb, hist>>
+VARIABLES objs, mems, nb, hist, lay
+vars == <<objs, mems, nb, hist, lay>>
 \* cfg files cannot write negative numbers: IntSet <- IntsA / IntsB
 IntsA == {0, -1, 1}
 IntsB == {0, -1}
@@ -23,7 +26,9 @@ ShapesOfRank(r) == IF r = 0 THEN {<<>>} ELSE {<<e>> \o s : e \in Ext, s \in Shap
 \* roots of rank 3 may be restricted to the extents Ext3 (quick tier)
 AllShapes == {s \in UNION {ShapesOfRank(r) : r \in 0..MaxRank} : Len(s) < 3 \/ \A j \in DOMAIN s : s[j] \in Ext3}
 SmallRoots == {<<>>, <<1>>, <<3>>, <<1, 1>>, <<2, 3>>, <<0>>, <<2, 0>>, <<2, 1, 2>>}
-Roots == IF RootSmall THEN SmallRoots ELSE AllShapes
+\* roots of the mixed-unit-list instance: up to 4 elements / rows (A-B-B-A orders)
+MixedRoots == IF MixQuick THEN {<<3>>, <<4>>, <<3, 2>>} ELSE {<<2>>, <<3>>, <<4>>, <<3, 2>>, <<2, 3>>, <<4, 1>>}
+Roots == IF RootSet = "small" THEN SmallRoots ELSE IF RootSet = "mixed" THEN MixedRoots ELSE AllShapes
 TargetShapes == {t \in UNION {ShapesOfRank(r) : r \in 0..3} : Len(t) <= TargetRank}
                   \cup {<<n>> : n \in {4, 6, 8, 9, 12, 18, 27}}
                   \cup (IF TargetRank >= 2 THEN {<<2, 2>>, <<1, 4>>, <<6, 1>>, <<1, 6>>, <<3, 2>>, <<2, 3>>, <<4, 1>>, <<2, 6>>, <<9, 1>>} ELSE {})
@@ -85,16 +90,33 @@ OpsLite(o, rich) ==
   \cup {Op("bin", <<>>, <<"self">>, "add", 0, 0), Op("bin", <<>>, <<"num">>, "mul", 0, 0)}
 \* the full index alphabet is used on objects built by the constructors in RichCtors
 OpsFor(o) == IF Lite THEN OpsLite(o, TRUE)
+             ELSE IF lay # "C" THEN OpsLite(o, FALSE)   \* non-C sources: the reduced alphabet (all view-set / copy-set calls)
              ELSE IF hist[1].op \in RichCtors THEN OpsRich(o, TRUE)
              ELSE IF LiteOthers THEN OpsLite(o, FALSE) ELSE OpsRich(o, FALSE)
-CtorOps == {Op0(c) : c \in Ctors \ {"mixlist"}}
-             \cup (IF "mixlist" \in Ctors THEN {Op("mixlist", <<>>, us, "", 0, 0) : us \in {<<"m", "km">>, <<"km", "m">>, <<"cm", "cm">>, <<"cm", "m">>}} ELSE {})
+\* unit patterns of mixed lists: every sequence of length 2 and 3 over a unit family (so A-B-A, A-A-B, A-B-C ...), and
+\* the length-4 orders A-B-B-A and A-B-A-B; families: lengths km/m/cm, temperatures K/degC/degF/R (offset units)
+RECURSIVE SeqsOver(_, _)
+SeqsOver(S, n) == IF n = 0 THEN {<<>>} ELSE {<<x>> \o t : x \in S, t \in SeqsOver(S, n - 1)}
+Patterns(S) == SeqsOver(S, 2) \cup SeqsOver(S, 3)
+                 \cup UNION {{<<x, y, y, x>> : y \in S \ {x}} : x \in S} \cup UNION {{<<x, y, x, y>> : y \in S \ {x}} : x \in S}
+FamSet(f) == {f[i] : i \in DOMAIN f}
+MixOpsOf(f) ==
+  {Op("mixlist", <<>>, us, form, 0, 0) : us \in Patterns(FamSet(f)), form \in {"list", "tuple"}}
+    \cup {Op("mixlist", <<>>, us, "setitem", a, 0) : us \in Patterns(FamSet(f)), a \in DOMAIN f}
+MixOps == IF MixRich
+          THEN MixOpsOf(LenFam) \cup MixOpsOf(TempFam)
+                 \cup {Op("mixlist", <<>>, us, "ufunc", a, 0) : us \in Patterns(FamSet(LenFam)), a \in DOMAIN LenFam}
+          ELSE {Op("mixlist", <<>>, us, "list", 0, 0) : us \in {<<"m", "km">>, <<"km", "m">>, <<"cm", "cm">>, <<"cm", "m">>}}
+CtorOps == {Op0(c) : c \in (IF lay = "C" THEN Ctors ELSE Ctors \cap LayCtors) \ {"mixlist"}}
+             \cup (IF "mixlist" \in Ctors /\ (lay = "C" \/ "mixlist" \in LayCtors) THEN MixOps ELSE {})
 
 \* the roots are partitioned over NSlices parallel TLC runs
 SliceOf(sh) == (Len(sh) + SumF([j \in DOMAIN sh |-> (2 * j + 1) * sh[j]], Len(sh))) % NSlices
-Init == \E sh \in {x \in Roots : SliceOf(x) = Slice} :
+\* the source ndarray comes in every memory layout that differs from C order for its shape
+Init == \E sh \in {x \in Roots : SliceOf(x) = Slice} : \E ly \in {y \in Layouts : LayDistinct(sh, y)} :
+          /\ lay = ly
           /\ objs = <<Obj("nd", sh, "", FALSE)>>
-          /\ mems = <<Mem(1, 1, Iota(Size(sh)))>>
+          /\ mems = <<Mem(1, 1, LayOffs(sh, ly))>>
           /\ nb = 2
           /\ hist = <<>>
 
@@ -103,7 +125,7 @@ Step(i, op) ==
   /\ LET r == Res(objs[i], mems[i], op) IN
        /\ objs' = Append(objs, r.o)
        /\ mems' = Append(mems, IF r.exc THEN Mem(0, 0, <<>>) ELSE NewMem(mems[i], r.cls, r.lpos, Size(r.o.sh), nb))
-  /\ nb' = nb + 1
+  /\ nb' = nb + 1 /\ lay' = lay
   /\ hist' = Append(hist, [op EXCEPT !.src = i])
 
 Next ==
@@ -115,7 +137,7 @@ Spec == Init /\ [][Next]_vars
 \* model-level verdict: calls of this history whose (transcribed) result breaks the class rule
 ModelBad == {[op |-> hist[l].op, s |-> hist[l].s, srck |-> objs[hist[l].src].k, k |-> objs[l + 1].k, sh |-> objs[l + 1].sh] :
                l \in {x \in DOMAIN hist : ~C16_Class(objs[hist[x].src], hist[x], objs[x + 1])}}
-Export == Len(hist) = Depth => PrintT(ToJson([tag |-> "H", root |-> objs[1].sh, h |-> hist, bad |-> ModelBad]))
+Export == Len(hist) = Depth => PrintT(ToJson([tag |-> "H", root |-> objs[1].sh, lay |-> lay, h |-> hist, bad |-> ModelBad]))
 \* every history up to Depth (used by the simulator: families of successors of the last state)
-ExportAny == Len(hist) >= 2 => PrintT(ToJson([tag |-> "H", root |-> objs[1].sh, h |-> hist, bad |-> ModelBad]))
+ExportAny == Len(hist) >= 2 => PrintT(ToJson([tag |-> "H", root |-> objs[1].sh, lay |-> lay, h |-> hist, bad |-> ModelBad]))
 =============================================================================
